@@ -312,7 +312,7 @@ func runC09(c *Ctx, scAny any) {
 		i, cn := i, cn
 		simsync.Go("h:peer", func() {
 			for pendingGenuine > 0 {
-				time.Sleep(10 * time.Millisecond)
+				Sleep(10 * time.Millisecond)
 			}
 			d := &simnet.Dialer{Net: c.Net, LocalIP: fmt.Sprintf("10.0.1.%d", i+1)}
 			pc, err := d.Dial("tcp", srvAddr)
@@ -414,7 +414,7 @@ func c09Peer(c *Ctx, pc net.Conn, cn *c09Conn) {
 		}
 		if i < len(p.DelaysMS) && p.DelaysMS[i] > 0 {
 			d := time.Duration(p.DelaysMS[i]) * time.Millisecond
-			time.Sleep(d)
+			Sleep(d)
 			if prev < cn.first {
 				waited += d
 			}
